@@ -28,6 +28,10 @@ def main():
             with open(a.replay) as f:
                 sys.exit(mod.replay(json.load(f)))
         rep = Report(a.pid, a.tier, seed, mod.LEVEL)
+        # trusted base: the reference interpreter must agree with outcomes upstream observed on a real node (147 runs of the pinned
+        # integration goldens, < 1 s) before any verdict that rests on it is produced
+        from spec import crosscheck
+        rep.extra["avm_crosscheck_runs"] = crosscheck.quick()
         mod.run(rep, a.tier, seed)
         sys.exit(rep.finish())
     except SystemExit:
